@@ -781,6 +781,25 @@ class Fxp():
                 # a list / tuple of NumPy scalars of a narrow type: compute in the Python type, as for an ndarray of that dtype
                 vdtype = type(val.item(0))
         
+        # the value type is a Python type (int, float, complex): the dtype of a converted list / tuple, or the NumPy scalar type of
+        # the first element of an object array, counts by its kind (an unsigned dtype kept as it is would wrap negative codes later,
+        # escape the int -> float rules, or carry its narrow arithmetic along)
+        if vdtype is not None and not (isinstance(vdtype, type) and vdtype in (int, float, complex)):
+            try:
+                _kind = np.dtype(vdtype).kind
+            except TypeError:
+                _kind = None
+            if _kind == 'O' and val.size > 0:
+                _items = np.asarray(val).flatten().tolist()
+                _kind = 'c' if any(isinstance(v, (complex, np.complexfloating)) for v in _items) else \
+                    ('f' if any(isinstance(v, (float, np.floating, Fraction)) for v in _items) else 'i')
+            if _kind in ('i', 'u', 'b'):
+                vdtype = int
+            elif _kind == 'f':
+                vdtype = float
+            elif _kind == 'c':
+                vdtype = complex
+
         # scaling conversion (a raw value is already in the transformed domain, but the object keeps its scaling)
         self.scaled = self.scale is not None and self.bias is not None and (self.bias != 0 or self.scale != 1)
         if self.scaled and not raw:
